@@ -24,6 +24,7 @@ struct efile {
 };
 extern struct efile env_fs[ENV_NFILES];
 extern char env_in[ENV_INSZ];
+extern int env_in_bulk;
 extern int env_in_len, env_in_pos;
 extern const char *env_in_tail;
 extern long env_in_reads;
